@@ -74,7 +74,7 @@ def geometry(rng, kind):
 
 def gen_tuple_cases(tier, seed):
     quick = tier == "quick"
-    bits = 10 if quick else 24
+    bits = 24
     cases = []
     for ls in itertools.product(range(4), repeat=4):
         for d in range(1 if quick else 2):
@@ -165,7 +165,7 @@ def gen_basis_cases(tier, seed):
         basis = []
         for _ in range(n):
             basis.append(cg.shell(rng, rng.randint(0, lmax), K=rng.randint(1, 2), M=rng.randint(1, 2), lo=0.1, hi=10.0,
-                                  cen=rng.choice(cens) if rng.random() < 0.7 else None, bits=10 if quick else 24))
+                                  cen=rng.choice(cens) if rng.random() < 0.7 else None, bits=24))
         while sum(layout.size(s) for s in basis) > (14 if quick else 18):
             basis.pop()
         c = {"kind": "basis", "basis": basis}
